@@ -14,13 +14,18 @@ package c06
 //	defect switched on (lean/WR/C06/Tokenizer.lean, `Quirks`); if exactly that reproduces the
 //	implementation's output the case is a "judge" finding with Key = the defect (a regression: the
 //	specification, i.e. the property text, says otherwise); a difference no such defect explains is
-//	a "corr" finding.
+//	also a "judge" finding (op judge:differs-from-css-syntax:<entry>): the model is the css-syntax-3
+//	reading itself, so any difference is a violation of the property by the implementation; the
+//	reason says whether the token tree, the parsed constructs (recovery extent) or only the source
+//	positions differ.  "corr" is left for a disagreement between the model and a stored corpus
+//	expectation.
 
 import (
 	"encoding/json"
 	"fmt"
 	"os"
 	"path/filepath"
+	"regexp"
 	"sort"
 	"strings"
 	"time"
@@ -76,9 +81,15 @@ func request(e entry, q int, skipC, skipW bool, css string) sx.X {
 }
 
 type runner struct {
-	m   *mp.Model
-	out *res.Result
+	m         *mp.Model
+	out       *res.Result
+	seenJudge map[string]int
 }
+
+var posRe = regexp.MustCompile(`\((ws|comment|ident|at|hash|str|url|lit|ur|num|pct|dim|paren|square|curly|fn|err|qrule|atrule|decl) \d+ \d+`)
+
+// stripPos removes the line/column pairs from a canonical form (to tell what kind of difference it is).
+func stripPos(s string) string { return posRe.ReplaceAllString(s, "($1") }
 
 // one evaluates one input on one entry point.
 func (rn *runner) one(e entry, css string, skipC, skipW bool, kind string, seed uint64) error {
@@ -134,8 +145,30 @@ func (rn *runner) one(e entry, css string, skipC, skipW bool, kind string, seed 
 			return nil
 		}
 	}
-	rn.out.Add(res.Finding{Kind: "corr", Op: "corr:" + op, Input: css, Impl: implS, Model: modelS,
-		Reason: fmt.Sprintf("implementation and specification model differ (skipComments=%v skipWhitespace=%v); no documented defect explains it", skipC, skipW), Seed: seed})
+	// The model IS the css-syntax-3 reading (with the documented vocabulary deviations, which both
+	// sides share): a difference on any input is a violation of the property by the implementation.
+	what := "token tree (types / values / flags / nesting)"
+	if e.name != "tok" {
+		what = "parsed constructs (a declaration, rule or error consumed more or less input than css-syntax-3 assigns to it, or was classified differently)"
+		var tokImpl sx.X
+		o2 := render.Guard(30*time.Second, func() { tokImpl = entries[0].run(css, skipC, false) })
+		if a3, err := rn.m.Ask(request(entries[0], 0, skipC, false, css)); err == nil && o2.OK() && a3.String() != tokImpl.String() {
+			what = "token tree (the tokens handed to the parser already differ)"
+			if stripPos(a3.String()) == stripPos(tokImpl.String()) {
+				what = "source positions (line/column) of the tokens"
+			}
+		}
+	}
+	if stripPos(implS) == stripPos(modelS) {
+		what = "source positions (line/column) only"
+	}
+	rn.seenJudge[op+"|"+what]++
+	rn.out.Hit("differs:" + op + ":" + strings.SplitN(what, " (", 2)[0])
+	if rn.seenJudge[op+"|"+what] > 2 {
+		return nil
+	}
+	rn.out.Add(res.Finding{Kind: "judge", Op: "judge:differs-from-css-syntax:" + op, Input: css, Impl: implS, Model: modelS,
+		Reason: fmt.Sprintf("entry point %s (skipComments=%v skipWhitespace=%v): the implementation's output differs from the CSS Syntax Level 3 algorithms in its %s", op, skipC, skipW, what), Seed: seed})
 	return nil
 }
 
@@ -160,6 +193,7 @@ var EdgeCases = []string{
 	"\"abc", "'a\\", "'a\\\nb'", "\"a\nb\"c", "5/**/%", "1\\45 3", "1e", "1e-", "1e+", "1e3", "+.5e-2x", ".", "+", "+a", "1.", "1.e3", "-.5", "-5e", "--5", "-->", "<!--", "<!-",
 	"U+", "u+a", "U+??????", "U+0000000", "u+1-", "u+1-g", "U+1?-2", "#", "#1", "#a", "#-1", "#--", "#\\\n", "@", "@1", "@--", "@\\", "a(", "a(b", "a(b))", "{]}", "[)]", "(}",
 	"a:b!important", "a:b ! important ;c : d", "a:b !important x", "a{b:c}", "@m x{y}z{w}", "@i u;a{}", "a;b{}", "a:b{c}d;e:f", "{}", "a:{}", "a: b {} c", "x\x00y", "a\r\nb\rc\fd",
+	"a\n\n  b", "a \n \n\tb{c\n\n:d}", "/*1\n2\n3*/x y", "'a\\\n\\\nb' c", "a\r\n\r\nb", "a\n/*\n\n*/\n b", "{ a: b } color: red; width: 1px", "{} a:b; c:d", "x{y}z:w;u:v",
 	"9223372036854775807 9223372036854775808 -9223372036854775808 -9223372036854775809", "\\0 \\110000 \\d800 \\10ffff x",
 }
 
@@ -261,7 +295,7 @@ func Run(tier string, seed uint64, modelPath, repo string, out *res.Result) erro
 		return err
 	}
 	defer m.Close()
-	rn := &runner{m: m, out: out}
+	rn := &runner{m: m, out: out, seenJudge: map[string]int{}}
 	r := rng.New(seed)
 	nGen, nPrefixed, nMut := 4200, 500, 5000
 	if tier == "thorough" {
